@@ -431,6 +431,22 @@ def main():
             rc = vprops.replay(ctx, a.replay)
         else:
             rc = vprops.CHECKS[a.pid](ctx)
+    except vbuild.SanitizerAtInit as e:
+        # not an infrastructure problem: the tree under test corrupts memory (or has UB) before the first command is read
+        os.makedirs(REPLAYS, exist_ok=True)
+        path = os.path.join(REPLAYS, f'{a.pid}-init-{ctx.seed}.txt')
+        concrete = a.pid == 'C10'
+        with open(path, 'w') as fh:
+            fh.write(f'# property {a.pid}: the engine aborts under the sanitizer during initialisation (harness `cppdrv dump`, no input needed)\n'
+                     f'# concrete-failing-input: {"yes" if concrete else "no: the model cannot be tied to this build (Gen/*.lean cannot be regenerated)"}\n' + str(e) + '\n')
+        print(f'VIOLATION property={a.pid} replay={path}' + ('' if concrete else ' no-failing-input-found'))
+        try:
+            ctx.cov['rule'] = 'initialisation aborted under the sanitizer; nothing else could be explored'
+            ctx.violations = getattr(ctx, 'violations', 0) + 1
+            finish(ctx, 'proof', [], 'sanitizer abort during engine initialisation', 'python3 tools/vcheck.py ' + a.pid)
+        except Exception:
+            pass
+        sys.exit(1)
     except Exception as e:
         traceback.print_exc()
         # an infrastructure failure is not evidence of anything: fail loudly without a VIOLATION line
